@@ -66,6 +66,7 @@ type Contract struct {
 	Inline      bool
 	Assumed     bool
 	Pure        bool
+	Depends     []*Node // pure: the result is a function of these expressions only (default: all arguments)
 	NoReturn    bool
 	NilRecvOK   bool
 	Extern      bool
@@ -92,7 +93,7 @@ var directiveRe = regexp.MustCompile(`^([a-z-]+)(\[[A-Za-z0-9_.:@,-]+\])?(\s+|$)
 var knownDirectives = map[string]bool{"func": true, "extern": true, "property": true, "requires": true, "ensures": true,
 	"modifies": true, "loop": true, "spec": true, "nooverflow": true, "nopanic": true, "inline": true, "assume": true, "pure": true,
 	"noreturn": true, "nilrecv": true, "lemma": true, "var": true, "assumes": true, "shows": true, "uses": true, "iface": true,
-	"bounded": true, "note": true, "ghost": true, "hint": true, "package": true, "opaque": true, "reveal": true, "guard": true, "check": true, "lenient": true}
+	"bounded": true, "note": true, "ghost": true, "hint": true, "package": true, "opaque": true, "reveal": true, "guard": true, "check": true, "lenient": true, "depends": true}
 
 // loadContracts parses every zz_verif_contracts.go below root/src.
 func loadContracts(root string) (*ContractSet, error) {
@@ -291,6 +292,14 @@ func (cs *ContractSet) parseFile(path, pkg string) error {
 			cur.Assumed = true
 		case "pure":
 			cur.Pure = true
+		case "depends":
+			for _, part := range splitTop(d.text) {
+				n, err := parseSpec(part)
+				if err != nil {
+					return perr(d, err)
+				}
+				cur.Depends = append(cur.Depends, n)
+			}
 		case "noreturn":
 			cur.NoReturn = true
 		case "nilrecv":
